@@ -169,7 +169,7 @@ class CaseResult:
 
 PRELUDE = '''#![allow(dead_code)]
 #![allow(unused_imports)]
-#![allow(non_camel_case_types, non_snake_case, non_upper_case_globals)]
+#![allow(non_camel_case_types, non_upper_case_globals)]
 #![allow(clippy::all)]
 #[path = "%s"]
 #[allow(unused, unreachable_code)]
